@@ -10,7 +10,7 @@ import corr  # noqa
 import kickcommon as K  # noqa
 from lib import f32, f2h, h2f  # noqa
 
-MODULES = ["InovesaModel.Props.C02", "InovesaModel.Props.Tie"]
+MODULES = ["InovesaModel.Props.C02", "InovesaModel.Props.TieKick"]
 LEVEL = "proof"
 U = 2.0 ** -24
 
